@@ -1,5 +1,5 @@
 // c06cov enumerates the exported operations (functions, methods on exported
-// types, and exported package-level function variables) of every package of
+// types, and exported package-level variables) of every package of
 // the repository and checks them against the checked-in coverage list
 // /verif/harness/c06_coverage.txt.
 //
@@ -100,15 +100,9 @@ func enumerate(repo string) (map[string]bool, error) {
 						if !n.IsExported() {
 							continue
 						}
-						isFunc := false
-						if _, ok := vs.Type.(*ast.FuncType); ok {
-							isFunc = true
-						}
-						if i < len(vs.Values) {
-							if _, ok := vs.Values[i].(*ast.FuncLit); ok {
-								isFunc = true
-							}
-						}
+						// every exported package-level variable is an observable value
+						isFunc := true
+						_ = i
 						if isFunc {
 							out[pkg+" "+n.Name] = true
 						}
